@@ -84,7 +84,6 @@ func c20(c *core.Ctx) {
 	c.Run("rcvBlockLoop", func() {
 		loop := c.Fn(pmSpec + ".rcvBlockLoop")
 		hasBlock := c.Method("network.BlockChain", "HasBlock")
-		insert := c.Method(pmSpec, "insertBlock")
 		add := c.Method("network.BlockCache", "Add")
 		request := c.Method("network.peer", "RequestBlocks")
 
@@ -115,12 +114,25 @@ func c20(c *core.Ctx) {
 			}
 			return core.CanReach(from, to, header)
 		}
-		ins := core.CallsIn(loop, insert)
+		// the places where a block is handed to the chain: pm.insertBlock(b), or merge + chain.InsertBlock(b) written out at the site
+		sites := netInserts(c, loop)
+		var ins []netInsert
+		for _, s := range sites {
+			if s.Fn == loop {
+				ins = append(ins, s)
+			}
+		}
 		adds := core.CallsIn(loop, add)
 		c.Check("rcvBlockLoop:insertBlock-present", "must-call", len(ins) >= 1, loop.Pos(), "rcvBlockLoop inserts received blocks")
-		for _, i := range ins {
-			ok, why := core.HeededBefore(pt, core.IsFalse, i)
-			c.Check("rcvBlockLoop:HasBlock(parent)≺insertBlock", "guarded-action", ok && argIs(i, tested), i.Pos(), "a received block is inserted only when its parent is known, and it is the tested block: %s", orOK(why))
+		for _, s := range ins {
+			ok, why := core.HeededBefore(pt, core.IsFalse, s.Call)
+			c.Check("rcvBlockLoop:HasBlock(parent)≺insertBlock", "guarded-action", ok && s.Block == tested && tested != nil, s.Call.Pos(), "a received block is inserted only when its parent is known, and it is the tested block: %s", orOK(why))
+		}
+		for _, s := range sites {
+			c.Check("insertBlock:ProtocolManager.mergeConfirmsFromCache≺BlockChain.InsertBlock@"+shortFn(s.Fn), "order", s.Merged, s.Call.Pos(), "the confirms that arrived before the block are merged into it before it is handed to InsertBlock, on every path (at the site or in the forwarding helper), and into that block")
+			if s.Helper != nil {
+				c.Check("insertBlock:returns-InsertBlock-result@"+shortFn(s.Helper), "value-flow", s.Verdict, s.Helper.Pos(), "%s reports InsertBlock's verdict (rcvBlockLoop stops the batch on an error)", shortFn(s.Helper))
+			}
 		}
 		c.Check("rcvBlockLoop:blockCache.Add-present", "must-call", len(adds) == 1, loop.Pos(), "rcvBlockLoop caches blocks whose parent is unknown (%d Add calls)", len(adds))
 		if len(adds) != 1 {
@@ -258,8 +270,11 @@ func c20(c *core.Ctx) {
 					if !core.SliceHasCall(core.Slice(ga[len(ga)-1]), blk("ParentHash")) {
 						continue
 					}
-					for _, i := range core.CallsIn(cb, insert) {
-						if k, _ := core.HeededBefore(g, core.IsFalse, i); k && argIs(i, cb.Params[0]) {
+					for _, s := range sites {
+						if s.Fn != cb || len(cb.Params) == 0 {
+							continue
+						}
+						if k, _ := core.HeededBefore(g, core.IsFalse, s.Call); k && s.Block == ssa.Value(cb.Params[0]) {
 							okCb = true
 						}
 					}
@@ -269,27 +284,6 @@ func c20(c *core.Ctx) {
 		}
 	})
 	c.Run("insertBlock", func() {
-		fn := c.Fn(pmSpec + ".insertBlock")
-		merge := c.Method(pmSpec, "mergeConfirmsFromCache")
-		ib := c.Method("network.BlockChain", "InsertBlock")
-		ordered(c, fn, merge, ib)
-		same := true
-		for _, g := range append(core.CallsIn(fn, merge), core.CallsIn(fn, ib)...) {
-			a := g.Common().Args
-			if a[len(a)-1] != fn.Params[1] {
-				same = false
-			}
-		}
-		c.Check("insertBlock:same-block", "value-flow", same, fn.Pos(), "the block merged with cached confirms is the block handed to InsertBlock")
-		c.Check("insertBlock:returns-InsertBlock-result", "value-flow", func() bool {
-			for _, r := range core.Returns(fn) {
-				if !core.SliceHasCall(core.Slice(core.RetVal(r, 0)), ib) {
-					return false
-				}
-			}
-			return true
-		}(), fn.Pos(), "insertBlock reports InsertBlock's verdict (rcvBlockLoop stops the batch on an error)")
-
 		mfn := c.Fn(pmSpec + ".mergeConfirmsFromCache")
 		pop := c.Method("network.ConfirmCache", "Pop")
 		pops := core.CallsIn(mfn, pop)
@@ -481,6 +475,9 @@ func c20(c *core.Ctx) {
 		// every element of the batch is looked at: the verification is evaluated in every iteration
 		c.Check("handleTxsMsg:VerifyTxBody-every-iteration", "loop-coverage", core.EveryIterationPasses(g), g.Pos(), "every transaction of the batch is verified")
 	})
+
+	c.Clause("C20.6", "a transaction gossiped by several peers at once enters the pool once: handleTxsMsg adds from one goroutine per message, so the pool's existence test and its index insert happen under one hold of the pool's mutex (clause of C18.3, evaluated here as well)")
+	c.Run("pool-insert-atomic", func() { c18InsertAtomic(c) })
 
 	c.NotDecidedf("convergence itself: equality of the end states (current/stable block, pool content) over all delivery orders, duplications and interleavings is a property of histories and is not decided")
 	c.NotDecidedf("that BlockCache keeps heights ascending and loses no block (only the overwrite-by-append shape is decided), eviction at 10240 entries, timing of the 500 ms drain, which peer is asked")
